@@ -60,8 +60,10 @@ theorem WFrec.setStatic {R : Nat} {r : Rec} (h : WFrec R r) (w : World) (f : Nat
 theorem WFrec.setOverride {R : Nat} {r : Rec} (h : WFrec R r) (w : World) (f : Nat) :
     WFrec R (setOverride w f r R) := by
   obtain ⟨h1, h2, h3, h4⟩ := h.updateStamp w f
-  refine ⟨h1, h2, ?_, h4⟩
-  simp [Deps.setOverride]
+  refine ⟨h1, h2, ?_, ?_⟩
+  · simp [Deps.setOverride]
+  · intro hc
+    exact ⟨(h4 hc).1, (h4 hc).2.1, rfl⟩
 
 theorem WFrec.stampRec {R : Nat} {r : Rec} (h : WFrec R r) (data : Content) : WFrec R (stampRec r R data) := by
   obtain ⟨h1, h2, h3, h4⟩ := h
@@ -243,8 +245,8 @@ def scriptCx (cx : Ctx) (t : Nat) : Ctx :=
   { runid := cx.runid, parent := some t, cycles := t :: cx.cycles, keepGoing := cx.keepGoing, crash := cx.crash }
 
 /-- The environments of the two phases of `redo-unlocked`. -/
-def oobCx1 (d : Defects) (cx : Ctx) : Ctx :=
-  { cx with noOob := true, unlocked := false, isRedo := false, parent := if d.oobRecordsDepsOnCaller then cx.parent else none }
+def oobCx1 (d : Defects) (cx : Ctx) (t : Nat) : Ctx :=
+  { cx with noOob := true, unlocked := false, isRedo := false, cycles := t :: cx.cycles, parent := if d.oobRecordsDepsOnCaller then cx.parent else none }
 
 def oobCx2 (cx : Ctx) : Ctx := { cx with noOob := true, unlocked := true, isRedo := false }
 
@@ -433,7 +435,7 @@ theorem buildJob_wf {R : Nat} {E : Engine} (hE : EngineWF R E) (d : Defects) (cx
       split
       · exact hs
       · generalize (if w1.oobRev = true then ts.eraseDups.reverse else ts.eraseDups) = ts'
-        have h2 := hE (oobCx1 d cx) ts' w1 hR h1
+        have h2 := hE (oobCx1 d cx t) ts' w1 hR h1
         unfold oobCx1 at h2
         generalize E.ifchangeCmd _ ts' w1 = res at h2
         obtain ⟨rv, w2⟩ := res
